@@ -30,22 +30,20 @@ class LoopCut:
         self.length_of = length_of  # state -> n (domain of i)
 
 
-class CutSeq:
-    """symbolic-length sequence; element(j) builds the element at symbolic position j"""
+def CutSeq(K, element, cut):
+    """symbolic-length sequence iterated by a `for` statement under a loop cut"""
+    from .seqmodel import SymSeq
 
-    def __init__(self, K, element, cut):
-        self.K, self.element, self.cut = K, element, cut
+    return SymSeq(K, element, cut, cut.name)
 
-    def __bool__(self):
-        return True
 
-    def __iter__(self):
-        return _CutIter(self, sys._getframe(1))
-
-    def __pyvc_len__(self):
-        from .values import SNum
-
-        return SNum(self.K, False, "pyi")
+def cut_iterator(seq):
+    # frame 0: this function, 1: SymSeq.__iter__, 2: the function under verification
+    cut = seq.cut
+    cut.entries = getattr(cut, "entries", 0)
+    it = _CutIter(seq, sys._getframe(2), cut.entries)
+    cut.entries += 1
+    return it
 
 
 def _snapshot(state):
@@ -55,7 +53,7 @@ def _snapshot(state):
     return out
 
 
-def _havoc(ctx, state, cut, j, tag):
+def _havoc(ctx, state, cut, j, tag, inv=None):
     """replace the contents of every state array by fresh symbols constrained by Inv(j)"""
     for name, a in state.items():
         data = a._data if isinstance(a, MArr) else a
@@ -79,8 +77,10 @@ def _havoc(ctx, state, cut, j, tag):
     n = cut.length_of(snap)
     parts = cut.assume_parts
 
+    inv = inv or cut.inv
+
     def body(i):
-        d = cut.inv(snap, j, i)
+        d = inv(snap, j, i)
         fs = [f for k, f in d.items() if parts is None or k in parts]
         return alg.implies(in_range(i, n), alg.and_(*fs))
 
@@ -88,13 +88,19 @@ def _havoc(ctx, state, cut, j, tag):
 
 
 class _CutIter:
-    def __init__(self, seq, frame):
+    def __init__(self, seq, frame, entry=0):
         self.seq = seq
         self.frame = frame
         self.phase = 0
+        self.entry = entry  # how many times this loop has been entered before (nested loops)
 
     def __iter__(self):
         return self
+
+    def _inv(self, state, j, i):
+        cut = self.seq.cut
+        cut.entry = self.entry
+        return cut.inv(state, j, i)
 
     def __next__(self):
         ctx = cur()
@@ -108,21 +114,23 @@ class _CutIter:
                 ctx.unsupported_here("loop cut %s: no loop-carried state found" % cut.name)
             snap = _snapshot(self.state)
             n = cut.length_of(snap)
-            ctx.loop_obligations.append(("establish", cut.name, n, lambda i, snap=snap: cut.inv(snap, 0, i)))
+            entry = self.entry
+            cut.entry = entry
+            ctx.loop_obligations.append(("establish" + (str(entry) if cut.entries > 1 or entry else ""), cut.name, n, lambda i, snap=snap: self._inv(snap, 0, i)))
             if ctx.fork(alg.eq(seq.K, 0)):
                 self.phase = 2
                 raise StopIteration
             j = ctx.fresh("j_" + cut.name, z3.IntSort())
             ctx.assume(alg.and_(alg.le(0, j), alg.lt(j, seq.K)))
             self.j = j
-            _havoc(ctx, self.state, cut, j, "pre")
-            return seq.element(j)
+            _havoc(ctx, self.state, cut, j, "pre", self._inv)
+            return seq.at(j)
         if self.phase == 1:
             self.phase = 2
             snap = _snapshot(self.state)
             n = cut.length_of(snap)
             j1 = alg.add(self.j, 1)
-            ctx.loop_obligations.append(("preserve", cut.name, n, lambda i, snap=snap: cut.inv(snap, j1, i)))
-            _havoc(ctx, self.state, cut, seq.K, "post")
+            ctx.loop_obligations.append(("preserve" + (str(self.entry) if self.entry else ""), cut.name, n, lambda i, snap=snap: self._inv(snap, j1, i)))
+            _havoc(ctx, self.state, cut, seq.K, "post", self._inv)
             raise StopIteration
         raise StopIteration
